@@ -245,6 +245,7 @@ type scenario struct {
 	Corpus  string   `json:"corpus"` // mix | tie | single | empty | shipped
 	Raw     string   `json:"raw,omitempty"`
 	Cap     int      `json:"cap,omitempty"`
+	BoostV  int      `json:"boostvar,omitempty"` // which context-boost map (same terms, permuted / different values)
 }
 
 func (s scenario) options() database.SearchOptions {
@@ -253,8 +254,17 @@ func (s scenario) options() database.SearchOptions {
 	if s.PBoost {
 		o.PipelineBoost = 2.0
 	}
-	if s.Boost {
-		o.ContextBoosts = map[string]float64{"frobnicate": 2.0, "widget": 1.3, "absentword": 2.0, "git": 1.5}
+	if s.Boost || s.BoostV > 0 {
+		switch s.BoostV {
+		case 0:
+			o.ContextBoosts = map[string]float64{"frobnicate": 2.0, "widget": 1.3, "absentword": 2.0, "git": 1.5}
+		case 1: // the same terms with the values permuted
+			o.ContextBoosts = map[string]float64{"frobnicate": 1.3, "widget": 2.0, "absentword": 1.5, "git": 2.0}
+		case 2:
+			o.ContextBoosts = map[string]float64{"frobnicate": 2.0}
+		default:
+			o.ContextBoosts = map[string]float64{"widget": 2.0, "frobnicate": 1.3}
+		}
 	}
 	return o
 }
